@@ -282,8 +282,32 @@ def jsonable(x):
         return json.loads(json.dumps(x, default=str))
 
 
+def peek_worker_env(modname: str) -> dict:
+    """
+    WORKER_ENV of a property module, read from its source without importing it: the parent process must run with
+    the same numba environment as its workers (it re-executes violating cases itself), and numba refuses a
+    NUMBA_NUM_THREADS that changes after its threads were launched
+    """
+    import ast  # pylint: disable=import-outside-toplevel
+    import importlib.util  # pylint: disable=import-outside-toplevel
+
+    spec = importlib.util.find_spec(modname)
+    if spec is None or not spec.origin:
+        return {}
+    with open(spec.origin, encoding="utf8") as f:
+        tree = ast.parse(f.read())
+    for node in tree.body:
+        if isinstance(node, ast.Assign) and any(getattr(t, "id", None) == "WORKER_ENV" for t in node.targets):
+            try:
+                return dict(ast.literal_eval(node.value))
+            except (ValueError, SyntaxError):
+                return {}
+    return {}
+
+
 def run_property(modname: str, tier: str, seed: int) -> int:
     t0 = time.time()
+    os.environ.update(peek_worker_env(modname))
     setup_env()
     mod = importlib.import_module(modname)
     assert_tree()
@@ -509,6 +533,7 @@ def run_property(modname: str, tier: str, seed: int) -> int:
 
 
 def replay(modname: str, path: str) -> int:
+    os.environ.update(peek_worker_env(modname))
     setup_env()
     mod = importlib.import_module(modname)
     assert_tree()
